@@ -22,7 +22,11 @@ from harness.C05 import gen, oracle, prelude
 THEOREMS = [
     "JanetModel.Props.C05.finished_never_resumes",
     "JanetModel.Props.C05.resume_finished_raises",
-    "JanetModel.Props.C05.status_monotone_partial",
+    "JanetModel.Props.C05.status_monotone",
+    "JanetModel.Props.C05.status_monotone_from_init",
+    "JanetModel.Props.C05.finished_is_forever",
+    "JanetModel.Props.C05.reachable_inv",
+    "JanetModel.Props.C05.new_becomes_alive",
     "JanetModel.Props.C05.values_pass_unchanged_in_order",
     "JanetModel.Props.C05.deliver_binds_value",
     "JanetModel.Props.C05.unwind_passes",
@@ -134,8 +138,8 @@ def run(ctx, only=None):
             # fiber); the model keeps one continuation per fiber and does not cover this (notes/C05.md, limits)
             kind = "unmodelled_reentrant"
         halts[kind] = halts.get(kind, 0) + 1
-        if kind == "done" or model_out is None:
-            runnable.append((i, t, fl))
+        if kind in ("done", "unmodelled_reentrant") or model_out is None:
+            runnable.append((i, t, fl))      # unmodelled_reentrant: no model trace to compare with, but the oracle still judges
         elif kind in ("bad", "running") or model_out[i].startswith("bad-op"):
             broken.append("model driver rejected / got stuck on tree %d: %s" % (i, model_out[i][-200:]))
     impl = {}
@@ -187,7 +191,7 @@ def run(ctx, only=None):
             info = gen.site_info(t)
             bad = oracle.check(impl[i], info, stats)
             same = True
-            if model_out is not None:
+            if model_out is not None and split_line(model_out[i])[1] == "done":
                 a, _ = split_line(impl[i])
                 b, _ = split_line(model_out[i])
                 if a != b:
@@ -217,7 +221,10 @@ def run(ctx, only=None):
                                   what="scenario %s failed on the implementation (rc=%r, stdout %r)" % (fn, rc, o[-80:]))
     for i, bad in oracle_bad[:5]:
         t, fl = trees[i]
-        ctx.violation("protocol:" + bad[0][0], {"kind": "protocol", "rule": bad[0][0], "violations": bad[:10], "janet": gen.janet_tree(i, t, fl),
+        sig = "protocol:" + bad[0][0]
+        if str(names.get(i, "")).startswith("ancestor-reentry"):
+            sig = "ancestor-reentry-premature-cleanup"
+        ctx.violation(sig, {"kind": "protocol", "rule": bad[0][0], "violations": bad[:10], "janet": gen.janet_tree(i, t, fl),
                                                "model_line": lines[i], "impl_trace": impl[i], "tree": names.get(i, i)},
                       what="protocol statement `%s` fails on the implementation: %s" % bad[0])
     if diffs:
